@@ -22,7 +22,9 @@ LEVEL_TEXT = ("Machine-checked proof (Coq, closed under the global context) over
               "os.chown/os.utime/os.truncate, that truncating keeps the leading bytes and extending pads with zeros, "
               "that steps not requested leave their fields unchanged (for any combination of flags), and that any sequence "
               "of such requests interleaved with arbitrary other changes to the file equals the same sequence of os.* "
-              "calls; flag bits and the list of steps (flag tested, call, order, open mode) are regenerated from "
+              "calls, and that on every kind of target (regular file - also through a symlink -, directory, missing "
+              "name) the new state and the status of each request equal those of the os.* call, success being reported "
+              "only when every requested step was applied; flag bits and the list of steps (flag tested, call, order, open mode) are regenerated from "
               "paramiko's AST each run (gen/c31.py) and proved equal to the modelled ones; the model is "
               "tied to sftp_server.py/sftp_client.py/sftp_file.py by running the real client against the real server "
               "on a temp dir - single requests and sequences of 2-4 requests on one open handle / path with writes in "
@@ -30,9 +32,11 @@ LEVEL_TEXT = ("Machine-checked proof (Coq, closed under the global context) over
 LEVEL_NOTE = ("Proof over a modelled file system: os.chmod/chown/utime/truncate and open('r+') are small Gallina "
               "re-implementations of their documented behaviour, validated only by the correspondence run; the "
               "modification time after a resize is an input taken from the implementation; permission errors, "
-              "non-regular files, win32 and chown to foreign ids are outside the model.")
+              "win32 and chown to foreign ids are outside the model; symlinks are modelled as transparent (every os.* "
+              "call used follows them), which the twin-tree comparison checks on the real file system.")
 TECHNIQUE = ("Coq proof over a modelled file + AST translator for flag bits and step list + vm_compute differential "
-             "correspondence (single requests and request sequences) through real client/server")
+             "correspondence (single requests, request sequences, every kind of target vs an os.* twin tree) through real "
+             "client/server")
 
 U32 = 2 ** 32
 
@@ -475,6 +479,195 @@ def model_seq_case(case, obs):
     return text, expect + list(obs["data"])
 
 
+# ---- every kind of target, compared with the os.* call on a twin tree ---------------------------
+
+import errno as _errno
+
+KINDS = ["file", "link", "dir", "missing", "under-missing", "dangling-link", "removed-handle"]
+LINK_TIMES = (1_500_000_001, 1_500_000_002)
+
+
+def gen_kind_case(rng, root_user):
+    kind = rng.choice(KINDS + ["link", "dir", "missing"])
+    op = rng.choice(["chmod", "chown", "utime", "truncate", "truncate"])
+    by_handle = kind == "removed-handle" or (kind in ("file", "link") and rng.random() < 0.5)
+    data = gen_data(rng, 80)
+    c = {"kinds": True, "kind": kind, "op": op, "by_handle": by_handle, "data": data,
+         "mode0": (gen_mode(rng, False) | (0o700 if kind == "dir" or not root_user else 0)),
+         "atime0": gen_time(rng), "mtime0": gen_time(rng),
+         "mode": gen_mode(rng, False) | (0 if root_user else 0o700), "ids": (os.getuid(), os.getgid()),
+         "times": (gen_time(rng), gen_time(rng)), "size": gen_size(rng, len(data), 120)}
+    return c
+
+
+def build_tree(base, case):
+    """The same little tree under `base`; returns the name the request is aimed at."""
+    shutil.rmtree(base, ignore_errors=True)
+    os.makedirs(base)
+    k = case["kind"]
+    t = os.path.join(base, "t")
+    if k in ("file", "link", "removed-handle"):
+        with open(t, "wb") as fh:
+            fh.write(case["data"])
+        os.chmod(t, case["mode0"])
+        os.utime(t, (case["atime0"], case["mtime0"]))
+    if k == "link":
+        os.symlink("t", os.path.join(base, "l"))
+        os.utime(os.path.join(base, "l"), LINK_TIMES, follow_symlinks=False)
+        return "l"
+    if k == "dangling-link":
+        os.symlink("gone", os.path.join(base, "l"))
+        os.utime(os.path.join(base, "l"), LINK_TIMES, follow_symlinks=False)
+        return "l"
+    if k == "dir":
+        os.mkdir(os.path.join(base, "d"))
+        os.chmod(os.path.join(base, "d"), case["mode0"])
+        os.utime(os.path.join(base, "d"), (case["atime0"], case["mtime0"]))
+        return "d"
+    if k == "missing":
+        return "nothing"
+    if k == "under-missing":
+        return "nodir/x"
+    return "t"
+
+
+def snapshot(base):
+    """Observable state of the tree: per entry kind, mode, ids, times (links: mtime only - following a
+    link may touch its atime), size and bytes of regular files."""
+    out = {}
+    for name in ("t", "l", "d"):
+        p = os.path.join(base, name)
+        try:
+            st = os.lstat(p)
+        except OSError:
+            out[name] = None
+            continue
+        import stat as _stat
+        if _stat.S_ISLNK(st.st_mode):
+            out[name] = {"kind": "link", "mtime": int(st.st_mtime), "to": os.readlink(p)}
+        elif _stat.S_ISDIR(st.st_mode):
+            out[name] = {"kind": "dir", "mode": st.st_mode & 0o7777, "uid": st.st_uid, "gid": st.st_gid,
+                         "atime": int(st.st_atime), "mtime": int(st.st_mtime)}
+        else:
+            with open(p, "rb") as fh:
+                data = fh.read()
+            st = os.lstat(p) if False else st
+            out[name] = {"kind": "file", "mode": st.st_mode & 0o7777, "uid": st.st_uid, "gid": st.st_gid,
+                         "atime": int(st.st_atime), "mtime": int(st.st_mtime), "data": data}
+    return out
+
+
+def classify(exc):
+    """Outcome classes of the property: what SFTPServer.convert_errno distinguishes."""
+    if exc is None:
+        return "ok"
+    if isinstance(exc, OSError) and exc.errno in (_errno.ENOENT, _errno.ENOTDIR):
+        return "no-such-file"
+    if isinstance(exc, OSError) and exc.errno == _errno.EACCES:
+        return "denied"
+    return "failure"
+
+
+def execute_kind(rig, root, case):
+    """The request through the real client/server on root/k, the os.* call on the twin root/ktwin."""
+    if getattr(rig, "cwd", "?") is not None:
+        rig.sftp.chdir(None)
+        rig.cwd = None
+    served, twin = os.path.join(root, "k"), os.path.join(root, "ktwin")
+    name = build_tree(served, case)
+    build_tree(twin, case)
+    sftp, rpath, tpath = rig.sftp, "/k/" + name, os.path.join(twin, name)
+    op = case["op"]
+    exc = texc = None
+    fobj = None
+    t0 = time.time()
+    try:
+        if case["by_handle"]:
+            fobj = sftp.open(rpath, "r+")
+            if case["kind"] == "removed-handle":
+                os.remove(os.path.join(served, "t"))
+                os.remove(os.path.join(twin, "t"))
+        if op == "chmod":
+            fobj.chmod(case["mode"]) if fobj else sftp.chmod(rpath, case["mode"])
+        elif op == "chown":
+            fobj.chown(*case["ids"]) if fobj else sftp.chown(rpath, *case["ids"])
+        elif op == "utime":
+            fobj.utime(tuple(case["times"])) if fobj else sftp.utime(rpath, tuple(case["times"]))
+        else:
+            fobj.truncate(case["size"]) if fobj else sftp.truncate(rpath, case["size"])
+    except Exception as e:  # noqa
+        exc = e
+    finally:
+        if fobj:
+            try:
+                fobj.close()
+            except Exception:
+                pass
+    try:
+        if op == "chmod":
+            os.chmod(tpath, case["mode"])
+        elif op == "chown":
+            os.chown(tpath, *case["ids"])
+        elif op == "utime":
+            os.utime(tpath, tuple(case["times"]))
+        else:
+            os.truncate(tpath, case["size"])
+    except OSError as e:
+        texc = e
+    t1 = time.time()
+    return {"outcome": classify(exc), "exc": repr(exc) if exc else None, "twin_outcome": classify(texc),
+            "twin_exc": repr(texc) if texc else None, "served": snapshot(served), "twin": snapshot(twin),
+            "t0": t0, "t1": t1}
+
+
+def oracle_kind(ctx, case, obs):
+    key = "kind-%s-%s" % (case["kind"], case["op"])
+    how = "by handle" if case["by_handle"] else "by path"
+    if obs["outcome"] != obs["twin_outcome"]:
+        ctx.fail(key, "%s %s on a target of kind '%s': the request's outcome differs from what os.%s does on a twin "
+                      "tree (a failing os.* call must be answered with the matching error status, a succeeding one "
+                      "with success)" % (case["op"], how, case["kind"], case["op"]),
+                 case=case, expected={"outcome": obs["twin_outcome"], "os": obs["twin_exc"]},
+                 observed={"outcome": obs["outcome"], "client": obs["exc"]})
+        return False
+    for name in ("t", "l", "d"):
+        a, b = obs["served"][name], obs["twin"][name]
+        if a is not None and b is not None and a.get("kind") == b.get("kind") and a != b:
+            # a successful resize stamps "now" on both sides, a moment apart
+            if (abs(a["mtime"] - b["mtime"]) <= 3 and obs["t0"] - 3 <= a["mtime"] <= obs["t1"] + 3
+                    and obs["t0"] - 3 <= b["mtime"] <= obs["t1"] + 3):
+                a = dict(a, mtime=b["mtime"])
+        if a != b:
+            ctx.fail(key, "%s %s on a target of kind '%s': entry '%s' of the served tree differs afterwards from the "
+                          "twin tree on which os.%s was called (links are followed, nothing else is touched)"
+                     % (case["op"], how, case["kind"], name, case["op"]),
+                     case=case, expected={name: b}, observed={name: a})
+            return False
+    return True
+
+
+def model_kind_case(case, obs):
+    k = case["kind"]
+    kind = 1 if k in ("file", "link") else 2 if k == "dir" else 3
+    req = {"chmod": (None, None, ("Some", case["mode"]), None),
+           "chown": (None, ("Some", tuple(case["ids"])), None, None),
+           "utime": (None, None, None, ("Some", tuple(case["times"]))),
+           "truncate": (("Some", case["size"]), None, None, None)}[case["op"]]
+    ent = obs["served"]["d"] if kind == 2 else obs["served"]["t"]
+    now = ent["mtime"] if (ent and case["op"] == "truncate") else 0
+    uid0, gid0 = os.getuid(), os.getgid()
+    text = coq((now, kind, (list(case["data"]) if kind == 1 else [], case["mode0"], uid0, gid0, case["atime0"],
+                            case["mtime0"]), req))
+    status = {"ok": 0, "no-such-file": 2, "denied": 3, "failure": 4}[obs["outcome"]]
+    if kind == 1 and ent:
+        canon = [1, ent["mode"], ent["uid"], ent["gid"], ent["atime"], ent["mtime"], len(ent["data"])] + list(ent["data"])
+    elif kind == 2 and ent:
+        canon = [2, ent["mode"], ent["uid"], ent["gid"], ent["atime"], ent["mtime"]]
+    else:
+        canon = [3]
+    return text, [status] + canon
+
+
 def guarded_model(ctx, run_fn, case_type, cases, what, show):
     """Model calls never stop the implementation-level oracle from reporting."""
     try:
@@ -488,7 +681,7 @@ def guarded_model(ctx, run_fn, case_type, cases, what, show):
 
 def run(ctx):
     rng = ctx.rng
-    scale = 6 if ctx.thorough else 1
+    scale = 5 if ctx.thorough else 1
     root_user = os.geteuid() == 0
     ctx.rule = ("seeded generator: served file = random bytes (0..600 for model cases, up to 300 KB for oracle-only "
                 "cases), random permission bits and u32 times; (1) one request per case: chmod / chown (current ids) / "
@@ -497,7 +690,11 @@ def run(ctx):
                 "path after SFTPClient.chdir(), or by an absolute path while a cwd is set (str or bytes), with a "
                 "same-named decoy present/absent where a wrongly resolved name would land; (2) sequences of 2-4 requests on the same open "
                 "handle / path with writes (through the handle or by another writer) and out-of-band os.utime calls "
-                "in between, os.stat after every step and the final bytes; a case is non-trivial when distinct and "
+                "in between, os.stat after every step and the final bytes; (3) each of chmod/chown/utime/truncate aimed, by "
+                "path and by handle, at every kind of target - regular file, symlink to a file, directory, missing name, "
+                "name under a missing directory, dangling symlink, file removed since the handle was opened - and "
+                "compared (outcome class incl. the error status, lstat of every entry, bytes) with the os.* call on an "
+                "identical twin tree; a case is non-trivial when distinct and "
                 "at least one observable of the file changes")
     ctx.trusted += ["model coq/Model/C31.v is hand-written; os.chmod/chown/utime/truncate and open('r+') are Gallina "
                     "re-implementations of documented behaviour, tied to the real file system through the real "
@@ -508,10 +705,10 @@ def run(ctx):
     ctx.prove()
     root = tempfile.mkdtemp(prefix="verif-c31-")
     rig = None
-    cases, seqs = [], []
+    cases, seqs, kinds = [], [], []
     try:
         rig = Rig(ctx.repo, root)
-        for i in range(300 * scale):
+        for i in range(250 * scale):
             # Coq parses a few thousand numerals per second: most model cases are small files
             case = gen_case(rng, 600 if i % 10 == 0 else 120, root_user)
             obs = execute(rig, root, case)
@@ -525,7 +722,7 @@ def run(ctx):
                 ctx.sample({"case": case, "observed": {k: obs[k] for k in ("mode", "uid", "gid", "atime", "mtime")},
                             "observed_len": len(obs["data"])})
         # sequences on one file
-        for i in range(150 * scale):
+        for i in range(120 * scale):
             case = gen_seq_case(rng, root_user)
             obs = execute_seq(rig, root, case)
             ctx.count(repr(sorted(case.items())), nontrivial=True,
@@ -534,6 +731,16 @@ def run(ctx):
             seqs.append((model_seq_case(case, obs), (case, obs)))
             if i < 1:
                 ctx.sample({"sequence": case, "stats": [{f: o[f] for f in FIELDS} for o in obs["stats"]]})
+        # every kind of target against the os.* call on a twin tree
+        for i in range(120 * scale):
+            case = gen_kind_case(rng, root_user)
+            obs = execute_kind(rig, root, case)
+            ctx.count(repr(sorted(case.items())), nontrivial=True,
+                      kind="kind-%s-%s" % (case["kind"], "handle" if case["by_handle"] else "path"))
+            oracle_kind(ctx, case, obs)
+            kinds.append((model_kind_case(case, obs), (case, obs)))
+            if i < 1:
+                ctx.sample({"kind_case": case, "outcome": obs["outcome"], "served": obs["served"]})
         # larger files: oracle only
         for i in range(25 * scale):
             case = gen_case(rng, 300_000, root_user)
@@ -553,6 +760,10 @@ def run(ctx):
                   "(Z * (list Z * Z * Z * Z * Z * Z) * (option Z * option (Z * Z) * option Z * option (Z * Z)))",
                   cases, "set_file_attr through client/server differs from the model",
                   lambda co: {k: co[1][k] for k in ("mode", "uid", "gid", "atime", "mtime", "data")})
+    guarded_model(ctx, "run_node",
+                  "(Z * Z * (list Z * Z * Z * Z * Z * Z) * (option Z * option (Z * Z) * option Z * option (Z * Z)))",
+                  kinds, "a request on a file / link / directory / missing name differs from the model (state or status)",
+                  lambda co: {"outcome": co[1]["outcome"], "served": co[1]["served"]})
     guarded_model(ctx, "run_seq", "((list Z * Z * Z * Z * Z * Z) * list step)", seqs,
                   "a sequence of requests through client/server differs from the model folded over it",
                   lambda co: {"stats": [{f: o[f] for f in FIELDS} for o in co[1]["stats"]], "data": co[1]["data"]})
@@ -588,6 +799,23 @@ def replay(ctx, rep):
     case = dict(rep["case"])
     if case.get("seq"):
         return _replay_seq(ctx, case)
+    if case.get("kinds"):
+        case["data"] = _unhex(case["data"])
+        for k in ("ids", "times"):
+            case[k] = tuple(case[k])
+        root = tempfile.mkdtemp(prefix="verif-c31-")
+        rig = None
+        try:
+            rig = Rig(ctx.repo, root)
+            for j in range(2):
+                obs = execute_kind(rig, root, case)
+                ctx.count(("replay-kind", j, repr(sorted(case.items()))))
+                oracle_kind(ctx, case, obs)
+        finally:
+            if rig:
+                rig.close()
+            shutil.rmtree(root, ignore_errors=True)
+        return
     if "data" not in case or not isinstance(case["data"], dict) or "hex" not in case["data"]:
         return run(ctx)
     case["data"] = _unhex(case["data"])
